@@ -689,3 +689,165 @@ func (c *Ctx) checkTruncation(r *Report, ro *Roles, rule string, reserve int64) 
 	}
 	r.Floor("width-dependent tail slices", n, 1)
 }
+
+// canonLoad: two loads of a variable that only this function writes (a captured variable of a closure, a local that was
+// spilled to a cell) yield the same value when no store to it lies between them. The later load is replaced by the
+// earliest dominating load it is provably equal to, so that facts about one (a strings.LastIndex post-condition
+// on len(tag)) apply to the other (the slice tag[:i] a few instructions on).
+func (c *Ctx) canonLoad(v ssa.Value) ssa.Value {
+	ld, ok := v.(*ssa.UnOp)
+	if !ok || ld.Op != token.MUL || ld.Block() == nil {
+		return v
+	}
+	f := ld.Parent()
+	addr := ld.X
+	if !c.privateCell(addr, f) {
+		return v
+	}
+	var loads []*ssa.UnOp
+	eachInstr(f, func(in ssa.Instruction) {
+		if u, ok := in.(*ssa.UnOp); ok && u.Op == token.MUL && u.X == addr && u != ld {
+			loads = append(loads, u)
+		}
+	})
+	isStore := func(in ssa.Instruction) bool {
+		st, ok := in.(*ssa.Store)
+		return ok && st.Addr == addr
+	}
+	best := ssa.Value(v)
+	for _, l1 := range loads {
+		if !(l1.Block() == ld.Block() || l1.Block().Dominates(ld.Block())) {
+			continue
+		}
+		// every path from l1 to ld that does not re-execute l1 is free of stores to the cell
+		clean, reached := true, false
+		seen := map[*ssa.BasicBlock]bool{}
+		var walk func(b *ssa.BasicBlock, from int)
+		walk = func(b *ssa.BasicBlock, from int) {
+			for i := from; i < len(b.Instrs) && clean; i++ {
+				in := b.Instrs[i]
+				if in == ssa.Instruction(ld) {
+					reached = true
+					return
+				}
+				if in == ssa.Instruction(l1) {
+					return
+				}
+				if isStore(in) {
+					clean = false
+					return
+				}
+			}
+			for _, s := range b.Succs {
+				if !seen[s] {
+					seen[s] = true
+					walk(s, 0)
+				}
+			}
+		}
+		start := -1
+		for i, in := range l1.Block().Instrs {
+			if in == ssa.Instruction(l1) {
+				start = i + 1
+			}
+		}
+		if start < 0 {
+			continue
+		}
+		if l1.Block() == ld.Block() {
+			// same block: l1 must come first
+			before := false
+			for _, in := range l1.Block().Instrs {
+				if in == ssa.Instruction(l1) {
+					before = true
+					break
+				}
+				if in == ssa.Instruction(ld) {
+					break
+				}
+			}
+			if !before {
+				continue
+			}
+		}
+		walk(l1.Block(), start)
+		if clean && reached {
+			// prefer the earliest such load (it dominates the others)
+			if b, ok := best.(*ssa.UnOp); !ok || b == ld || l1.Block().Dominates(b.Block()) {
+				best = l1
+			}
+		}
+	}
+	return best
+}
+
+// privateCell: the address names a variable that only f reads and writes while f runs: a free variable of f whose cell
+// the enclosing function hands to this closure alone and does not touch after creating it, or a local cell of f that
+// never leaves f.
+func (c *Ctx) privateCell(addr ssa.Value, f *ssa.Function) bool {
+	onlyLoadsStores := func(v ssa.Value, allowClosure *ssa.Function) bool {
+		refs := v.Referrers()
+		if refs == nil {
+			return false
+		}
+		closures := 0
+		for _, r := range *refs {
+			switch x := r.(type) {
+			case *ssa.UnOp:
+				if x.Op != token.MUL {
+					return false
+				}
+			case *ssa.Store:
+				if x.Addr != v {
+					return false // the address itself is stored somewhere
+				}
+			case *ssa.DebugRef:
+			case *ssa.MakeClosure:
+				if allowClosure == nil || x.Fn != ssa.Value(allowClosure) {
+					return false
+				}
+				closures++
+			default:
+				return false
+			}
+		}
+		return closures <= 1
+	}
+	switch a := addr.(type) {
+	case *ssa.Alloc:
+		return a.Parent() == f && onlyLoadsStores(a, nil)
+	case *ssa.FreeVar:
+		if !onlyLoadsStores(a, nil) || f.Parent() == nil {
+			return false
+		}
+		// the binding in the enclosing function
+		idx := -1
+		for i, fv := range f.FreeVars {
+			if fv == a {
+				idx = i
+			}
+		}
+		ok := false
+		eachInstr(f.Parent(), func(in ssa.Instruction) {
+			if mc, isMC := in.(*ssa.MakeClosure); isMC && mc.Fn == ssa.Value(f) && idx >= 0 && idx < len(mc.Bindings) {
+				if al, isAlloc := mc.Bindings[idx].(*ssa.Alloc); isAlloc && onlyLoadsStores(al, f) {
+					// stores of the enclosing function happen before the closure exists (they dominate its creation)
+					good := true
+					for _, r := range *al.Referrers() {
+						if st, isSt := r.(*ssa.Store); isSt {
+							if !(st.Block() == mc.Block() || st.Block().Dominates(mc.Block())) {
+								good = false
+							}
+						}
+						if u, isU := r.(*ssa.UnOp); isU && !(u.Block() == mc.Block() || u.Block().Dominates(mc.Block())) {
+							good = false
+						}
+					}
+					ok = good
+				}
+			}
+		})
+		return ok
+	}
+	return false
+}
